@@ -90,8 +90,8 @@ CHECKS = {
         level="model_checking",
         clauses=CROSS | {"accept", "export-error"},
         phases=dict(quick=[dict(profile="core2"), dict(profile="agg3"), dict(profile="wins3"), dict(profile="win2"),
-                           dict(profile="join2"), dict(profile="joins3"), dict(profile="union2"), dict(profile="tall2"), dict(profile="hidsub4"), dict(profile="fn1")],
-                    thorough=[dict(profile="hidsub4"), dict(profile="fn1"), dict(profile="fn2"), dict(profile="str1"), dict(profile="cast1"), dict(profile="ty2"), dict(profile="core3"), dict(profile="agg3"), dict(profile="win3"), dict(profile="wins4"),
+                           dict(profile="join2"), dict(profile="joins3"), dict(profile="union2"), dict(profile="tall2"), dict(profile="hidsub4"), dict(profile="fn1"), dict(profile="joinz4")],
+                    thorough=[dict(profile="hidsub4"), dict(profile="joinz4"), dict(profile="fn1"), dict(profile="fn2"), dict(profile="str1"), dict(profile="cast1"), dict(profile="ty2"), dict(profile="core3"), dict(profile="agg3"), dict(profile="win3"), dict(profile="wins4"),
                               dict(profile="join3"), dict(profile="joins4"), dict(profile="union3"), dict(profile="tall2")]),
     ),
     "C06": dict(
@@ -228,7 +228,7 @@ CHECKS = {
         level="model_checking",
         clauses={"meta", "trace-names", "trace-group", "trace-export-columns", "trace-unknown-input", "trace-sql-limit",
                  "trace-sql-filtered", "trace-sql-grouped", "trace-dtype", "trace-export-dtype", "names", "errclass", "accept"},
-        phases=dict(quick=[dict(kind="cachegraph", stride=4), dict(kind="verbnames"), dict(kind="joinnames"), dict(profile="core2"), dict(profile="join2"), dict(profile="union2"), dict(profile="hidsub4"),
+        phases=dict(quick=[dict(kind="cachegraph", stride=4), dict(kind="verbnames"), dict(kind="joinnames"), dict(profile="core2", opts=dict(printing=True)), dict(profile="agg3", opts=dict(printing=True)), dict(profile="join2"), dict(profile="union2"), dict(profile="hidsub4"),
                            dict(kind="tracemeta", profiles=[("core2", 400), ("join2", 300), ("agg3", 300)])],
                     thorough=[dict(profile="hidsub4"), dict(kind="verbnames", cols=["a", "b", "c", "x"], keys=["a", "b", "c", "x", "z"], vals=["a", "b", "c", "x", "y"]),
                               dict(kind="joinnames", lu=["a", "b", "a_t2", "b_t2", "a_t2_1", "b_t2_1", "a_t2_2", "a_x"], ru=["a", "b", "c", "a_t2", "b_t2"]),
@@ -245,7 +245,9 @@ MANIFEST_TEXT = {
         text="TLC enumerates every pipeline of the row-level verbs up to the depth bound over the focus alphabets (BFS, history variable), "
              "the specification predicts the complete table after every step, and every distinct prefix is executed on Polars and on SQLite "
              "and compared cell by cell with the prediction (an independent row-by-row semantics, so a defect common to both back ends is caught). "
-             "One phase replays with ONE python object per specification expression (an expression kept in a variable and reused across calls). "
+             "One phase replays with ONE python object per specification expression (an expression kept in a variable and reused across calls); "
+             "one composes the verb calls of every prefix into a table-less chain (one chain object per prefix, extended once per continuation) "
+             "and compares source >> chain with the step-by-step table. "
              "TLAPS proves the LIMIT / OFFSET composition and the arrange order laws of the value language for all naturals / integers.",
         note=TRUST, technique="TLA+ spec + TLC exhaustive generation, replay on real code against predicted observations; TLAPS proofs of value-language laws"),
     "C04": dict(
@@ -325,7 +327,9 @@ MANIFEST_TEXT = {
              "and cost graph extracted from the code at check time; TLC evaluates it for every operator and every argument tuple over the 48-type "
              "universe (arity <= 2 quick, <= 3 thorough) together with the uniformity clauses (sized types, const arguments); the code's "
              "Operator.return_type and ColFn construction outcomes are compared tuple by tuple, and re-run under other hash seeds and reversed "
-             "declaration order.",
+             "declaration order. The model also states when a result is a constant (an element-wise operator of constants only), enumerates "
+             "shift and clip at arity 3, and type unification (case branches, union columns: lca_type) is checked against its laws "
+             "(total, order-free, null-neutral, idempotent, upper bound, complete and minimal on the simple families: MC_Lca.tla).",
         note=TRUST + " The catalogue is extracted, so a harmless catalogue extension moves code and specification together; the meaning is fixed in Resolve.tla.",
         technique="TLA+ order-free definition + TLC total enumeration, code outcomes compared for every tuple", engine="types"),
     "C15": dict(
@@ -347,10 +351,12 @@ MANIFEST_TEXT = {
         text="The specification is used as a program generator: every generated pipeline is bound to offline engines of SQLite, PostgreSQL and SQL Server "
              "(stub DBAPI modules) and build_query is called twice - the outcome must be one SELECT text, twice the same, or NotSupportedError / "
              "SubqueryError; for every operator overload accepted by the type checker get_impl on every backend class incl. Polars must return a "
-             "callable or raise NotSupportedError. No oracle for the SQL text: exploration level.",
+             "callable or raise NotSupportedError, and every SQL implementation is called on typed columns (a None result compiles to NULL). The "
+             "join / union decisions of the design-level model (two stages) are executed on SQLite: build_query must not fail internally. "
+             "No oracle for the SQL text: exploration level.",
         note=TRUST + " DuckDB and DB2 plug-ins are not importable in this sandbox.", technique="TLC-generated programs compiled on three dialects; outcome-class oracle"),
     "C11": dict(
-        text="For every table of every TLC-generated behaviour, columns(), iteration, len, `in` and dir are compared with the exported frame "
-             "on both back ends; the metadata layer of the specification predicts the same names.",
+        text="For every table of every TLC-generated behaviour, columns(), iteration, len, `in`, dir and (Polars) the printed table / its HTML "
+             "form are compared with the exported frame on both back ends; the metadata layer of the specification predicts the same names.",
         note=TRUST, technique="TLA+ spec + TLC exhaustive generation, replay with metadata/export agreement oracle"),
 }
